@@ -51,6 +51,12 @@ WRAPS = [
     "async def zz_ak(zz_a, /,\n                zz_b='x',\n                *,\n                zz_tmp='/tmp/zz_k'):\n    {c}",
     "zz_lk = lambda zz_a, zz_b='0.0.0.0', *, zz_c='/tmp/zz_l': {c}",
     "@'0.0.0.0'\ndef zz_ds():\n    {c}",
+    # findings of the definition itself (password / protocol defaults) under one or several decorators, comments between
+    "@zz_deco\ndef zz_dp(zz_a, password='hunter2'):\n    {c}",
+    "@zz_deco.one(1)\n@zz_two\n# zz comment\n@zz_three(\n    'x')\ndef zz_dq(zz_a,\n          password='hunter2',\n          zz_v=ssl.PROTOCOL_SSLv3):\n    {c}",
+    "class ZzD:\n    @staticmethod\n    @zz_deco\n    def zz_m(token='hunter2'):\n        {c}",
+    "@zz_deco\nclass ZzE:\n    password = 'hunter2'\n    def zz_m(self):\n        {c}",
+    "@zz_deco\nasync def zz_ad(*, secret='hunter2'):\n    {c}",
 ]
 
 
